@@ -1,4 +1,4 @@
-import PsV.Proofs.ConvolveShape
+import PsV.Proofs.ConvSpec
 /-!
 # C14 — convolution produces the true convolution with the unit-area kernel spline
 
@@ -194,5 +194,26 @@ theorem unit_area_box (y : Nat → Rat) (h : y 0 ≠ y 1) : kernelArea y 1 = 1 :
 
 example : ConvSpec.kernelArea (fun i => if i = 0 then (-1 : Rat) else 2) 1 = 1 :=
   unit_area_box _ (by norm_num)
+
+open ConvSpec in
+/-- the integrand the specification integrates on one piece is `f(x - t) · M(t)` -/
+theorem spec_integrand_sound (f m : Poly) (x t : Rat) :
+    peval (pmul (pcompLin f x (-1)) m) t = peval f (x - t) * peval m t := by
+  rw [peval_pmul, peval_pcompLin]
+  congr 2
+  ring
+
+example : ConvSpec.peval (ConvSpec.pmul (ConvSpec.pcompLin [0, 0, 1] 3 (-1)) [2]) 1 = (3 - 1)^2 * 2 := by
+  rw [spec_integrand_sound]; simp [ConvSpec.peval]; norm_num
+
+open ConvSpec in
+/-- the polynomial pieces from which the specification builds `f` and the kernel are the shared Cox–de Boor
+specification `PsV.Bind` restricted to knot interval `j` (same recursion, same `a/0 = 0` convention) -/
+theorem spec_pieces_are_cox_de_boor (t : Int → Rat) (j p i : Nat) (x : Rat) :
+    peval (bpiece (fun n => t (n : Nat)) j p i) x = Bind (fun k => decide (k = (j : Int))) t x p (i : Int) :=
+  bpiece_eval t j x p i
+
+example : ConvSpec.peval (ConvSpec.bpiece (fun n => ((n : Nat) : Rat)) 0 1 0) (1/2) = 1/2 := by
+  simp [ConvSpec.bpiece, ConvSpec.peval, ConvSpec.padd, ConvSpec.pmulLin, ConvSpec.pscale]
 
 end PsV
